@@ -325,6 +325,11 @@ func (x *Exec) native(name string, fn *ssa.Function, args []Value) (Value, bool)
 		}
 		out = append(out, src.b[prev:]...)
 		return &Str{b: out}, true
+	case "strings.Compare", "internal/bytealg.CompareString":
+		a, b := args[0].(*Str), args[1].(*Str)
+		lt := x.binop(token.LSS, a, b, nil).(*Term)
+		eq := x.strEq(a, b)
+		return Ite(lt, BV(^uint64(0), 64), Ite(eq, BV(0, 64), BV(1, 64))), true
 	case "strings.Index":
 		return x.indexSeq(args[0].(*Str).b, args[1].(*Str).b), true
 	case "bytes.Index":
